@@ -21,7 +21,7 @@ RULE = ('Valid messages from the reference encoder (packaged and generated confi
         'prefixes of seed messages (thorough: all 65536 two-byte LLVAR prefixes). Non-trivial = a mutated message that passes '
         'the header; distinct by digest of (configuration, codec, rendering, bytes).')
 ASSUMPTIONS = ['numerals that are not plain [0-9]+ are a don\'t-care for acceptance (Python int() semantics in the lenient reference)',
-               'bit 128 set / bit 1 clear, PDS content of a ragged carrier tail and malformed TLV content are don\'t-care regions; a negative PDS length is a mis-frame',
+               'bit 128 set, PDS content of a ragged carrier tail and malformed TLV content are don\'t-care regions; a negative PDS length is a mis-frame',
                'exceptions other than the library error on inputs the strict reference rejects are C07\'s subject, not counted here']
 
 PACKAGED = gen_iso.packaged_config()
@@ -172,6 +172,25 @@ def sweep_prefix(ctx, seed_idx, codec, mode):
         data = refcodec.encode(SEED_CONFIG, codec, hexbm, msg)
         frames = mutate.frames_of(SEED_CONFIG, codec, hexbm, data)
         ib = interesting_bytes(codec)
+        # the whole bitmap moved by one or two bit numbers, with bit 1 set, clear or untouched
+        for k in (1, -1, 2, -2, 3, 8, -8):
+            for bit1 in (None, False, True):
+                mutated = mutate.apply(data, [('bmshift', k, bit1)], frames, codec, hexbm)
+                n += 1
+                prob, verdict = judge(SEED_CONFIG, codec, hexbm, mutated)
+                ctx.labels['verdict:' + verdict] += 1
+                ctx.labels['bitmap-shift'] += 1
+                nt += mutated != data
+                if prob:
+                    ctx.report(prob[0], case_of(SEED_CONFIG, True, codec, hexbm, mutated), prob[1])
+        for bit in range(1, 129):
+            mutated = mutate.apply(data, [('bit', bit)], frames, codec, hexbm)
+            n += 1
+            prob, verdict = judge(SEED_CONFIG, codec, hexbm, mutated)
+            ctx.labels['verdict:' + verdict] += 1
+            nt += 1
+            if prob:
+                ctx.report(prob[0], case_of(SEED_CONFIG, True, codec, hexbm, mutated), prob[1])
         for kind, bit, s, e in frames:
             if kind not in ('len', 'pds_len'):
                 continue
